@@ -92,13 +92,16 @@ class Pointer(int, BaseType, Generic[T]):
             # Reposition the file read/write pointer
             self._stream.seek(self)
 
-            if issubclass(self.type, Char):
-                # this makes the assumption that a char pointer is a null-terminated string
-                value = self.type._read_0(self._stream, self._context)
-            else:
-                value = self.type._read(self._stream, self._context)
+            try:
+                if issubclass(self.type, Char):
+                    # this makes the assumption that a char pointer is a null-terminated string
+                    value = self.type._read_0(self._stream, self._context)
+                else:
+                    value = self.type._read(self._stream, self._context)
+            finally:
+                # Also when the target can't be read, the stream is left where it was
+                self._stream.seek(position)
 
-            self._stream.seek(position)
             self._value = value
 
         return self._value
